@@ -14,6 +14,8 @@ import (
 	pcommon "github.com/lianxiangcloud/linkchain/libs/p2p/common"
 	"github.com/lianxiangcloud/linkchain/libs/p2p/conn"
 	"github.com/lianxiangcloud/linkchain/types"
+
+	"verif/sim/kernel"
 )
 
 func init() {
@@ -151,6 +153,9 @@ func (r *runState) scenarioSwitch() {
 	verdicts := []string{}
 	honestUp := false
 	n := r.flt.Range(1, 3)
+	if r.tier == kernel.Thorough {
+		n = r.flt.Range(1, 6)
+	}
 	for i := 0; i < n && !r.stop; i++ {
 		variant := r.flt.Pick(5, 6, 3, 2)
 		if honestUp && variant == 0 {
